@@ -498,7 +498,8 @@ WorkerKill(i) ==
   /\ act[i].st = "alive" /\ act' = [act EXCEPT ![i].kill = TRUE]
   /\ UNCHANGED <<cfg, f, fmq, fsq, jb, now, mon>>
 \* the actor is gone: whatever it held is lost with it; its supervisor is told
-MayDie(i) == act[i].st = "alive" /\ (act[i].dying \/ act[i].kill \/ (act[i].stop /\ act[i].run = 0))
+\* (a factory that ends kills whatever children it still has, e.g. a retired worker that has not stopped yet)
+MayDie(i) == act[i].st = "alive" /\ (act[i].dying \/ act[i].kill \/ (act[i].stop /\ act[i].run = 0) \/ f.up = "dead")
 WorkerDead(i) ==
   /\ act[i].st = "alive"
   /\ LET held == act[i].mb \o (IF act[i].run # 0 THEN <<act[i].run>> ELSE <<>>)
